@@ -1122,7 +1122,8 @@ def _is_partition(assign_term, n_parts, members_dom):
     p, i, j = z3.Int("pp"), z3.Int("pi"), z3.Int("pj")
     owner = _uf("c19_owner", ASSIGN.sort(), z3.IntSort(), z3.StringSort())
     return z3.And(
-        dom == members_dom,
+        # exactly the members have an entry (pointwise; `members_dom`: z3 String term -> Bool term)
+        z3.ForAll([c2], z3.Select(dom, c2) == members_dom(c2)),
         # every partition has an owner that is a member and lists it
         z3.ForAll([p], z3.Implies(z3.And(p >= 0, p < n_parts), z3.And(
             z3.Select(dom, owner(assign_term, p)), z3.Contains(z3.Select(val, owner(assign_term, p)), z3.Unit(p))))),
@@ -1137,9 +1138,13 @@ def _assign_contract(s):
     parts, cons = seq_term(s.partitions), seq_term(s.consumers)
     A = ASSIGN.dt
     k = z3.String("ak")
-    members = z3.Lambda([k], z3.Contains(cons, z3.Unit(k)))
+
+    def members(x):
+        return z3.Contains(cons, z3.Unit(x))
     n = z3.Length(parts)
-    return mk_bool(z3.Implies(z3.Length(cons) > 0, _is_partition(s.result.term, n, members)))
+    # (keys == consumers also for an empty consumer list: nobody owns anything)
+    return mk_bool(z3.And(z3.ForAll([k], z3.Select(A.dom(s.result.term), k) == members(k)),
+                          z3.Implies(z3.Length(cons) > 0, _is_partition(s.result.term, n, members))))
 
 
 stub_of(RangeAssignment, "assign", args={"partitions": Seq(Int), "consumers": Seq(Str)}, returns=ASSIGN, modifies=[],
@@ -1285,8 +1290,11 @@ def _rebalanced(s, before):
     a = z3.Select(_ctx.cur().heap.array(("ConsumerGroup", "_assignments"), ASSIGN), me._ref)
     n = z3.Select(_ctx.cur().heap.array(("EventLog", "_num_partitions"), Int), me._event_log._ref)
     nonempty = slen(me._consumers) > 0
-    return (me._generation == before._generation + 1) & mk_bool(z3.Implies(
-        to_z3_bool(nonempty), _is_partition(a, z3.If(n > 0, n, 0), _members_dom(me))))
+    md = _members_dom(me)
+    return ((me._generation == before._generation + 1)
+            # only CURRENT members own anything (also when nobody is left): a member that left owns nothing
+            & forall(Str, lambda k: mk_bool(z3.Select(ASSIGN.dt.dom(a), k.t) == z3.Select(md, k.t)))
+            & mk_bool(z3.Implies(to_z3_bool(nonempty), _is_partition(a, z3.If(n > 0, n, 0), lambda k: z3.Select(md, k)))))
 
 
 fn(ConsumerGroup, "_rebalance", uses=[(RangeAssignment, "assign")], modifies=["_generation", "_assignments", "_rebalances"],
@@ -1296,10 +1304,39 @@ fn(ConsumerGroup, "_rebalance", uses=[(RangeAssignment, "assign")], modifies=["_
     ("counted", lambda s: s.self._rebalances == s.old(s.self)._rebalances + 1),
     ("members-and-offsets-untouched", lambda s: unchanged(s, s.self, "_consumers", "_committed_offsets"))])
 
+def _membership_step(s, y):
+    """the atomic segment before the rebalance delay: a Join makes exactly this consumer a member (with the given entity),
+    a Leave removes exactly this consumer - and a member that left owns nothing from that instant on; every other member
+    and every other assignment entry is untouched"""
+    kind = s.old(s.event).event_type
+    if kind not in ("Join", "Leave"):
+        return True
+    name = cg_ctx("consumer_name")
+    MT = Map(Str, Ref(Entity), ordered=True).dt
+    h = _ctx.cur().heap
+
+    def maps(o):
+        return (z3.Select(h.array(("ConsumerGroup", "_consumers"), Map(Str, Ref(Entity), ordered=True), o._frozen), o._ref),
+                z3.Select(h.array(("ConsumerGroup", "_assignments"), ASSIGN, o._frozen), o._ref))
+    (c1, a1), (c0, a0) = maps(s.self), maps(s.old(s.self))
+    others = forall(Str, lambda k: mk_bool(z3.Implies(k.t != name.t, z3.And(
+        z3.Select(MT.dom(c1), k.t) == z3.Select(MT.dom(c0), k.t),
+        z3.Implies(z3.Select(MT.dom(c0), k.t), z3.Select(MT.val(c1), k.t) == z3.Select(MT.val(c0), k.t)),
+        z3.Select(ASSIGN.dt.dom(a1), k.t) == z3.Select(ASSIGN.dt.dom(a0), k.t),
+        z3.Select(ASSIGN.dt.val(a1), k.t) == z3.Select(ASSIGN.dt.val(a0), k.t)))))
+    if kind == "Join":
+        ent = cg_ctx("consumer_entity")
+        return (others & mk_bool(z3.And(z3.Select(MT.dom(c1), name.t), z3.Select(MT.val(c1), name.t) == ent._ref))
+                & unchanged(s, s.self, "_assignments") & (s.self._joins == s.old(s.self)._joins + 1))
+    return (others & mk_bool(z3.And(z3.Not(z3.Select(MT.dom(c1), name.t)), z3.Not(z3.Select(ASSIGN.dt.dom(a1), name.t))))
+            & (s.self._leaves == s.old(s.self)._leaves + 1))
+
+
 fn(ConsumerGroup, "handle_event", args={"event": Ref(Event)}, uses=[(ConsumerGroup, "_rebalance")],
    requires=[("not-poll", lambda s: s.event.event_type != "Poll"), ("members-map-bookkeeping", _cg_wf)],
    yields=Yields(
        at_yield=[("delay-is-the-configured-rebalance-delay", lambda s, y: y == s.self._rebalance_delay),
+                 ("join-adds-leave-removes-exactly-this-member-and-a-leaver-owns-nothing", _membership_step),
                  ("committed-untouched-by-join-leave", lambda s, y: forall(Str, lambda c: forall(Int, lambda p: mk_bool(
                      committed_view(s.self, c.t, p.t) == committed_view(s.old(s.self), c.t, p.t)))))],
        rely=[lambda s, b, y: _cg_wf(s)]),
@@ -1508,6 +1545,14 @@ PROPERTY["bounded"] = [
     {"name": "assignment-strategies-partition",
      "bound": "Range/RoundRobin/Sticky.assign: 0..7 partitions x every non-empty subset of 5 consumers; Sticky over all join orders of 3 members then two leaves",
      "fn": lambda seed, tier: _run_native(_NATIVE_ASSIGN)},
+    # membership changes end to end (representation independent: it observes group.assignments / consumers / generation
+    # only, so a change that adds fields to ConsumerGroup - outside the declared heap typing - is still decided here)
+    {"name": "group-membership-changes-leave-no-partition-unowned",
+     "bound": "native Simulation, public join/leave/poll API, rebalance_delay 0.5: `join a` then every 3-operation sequence over "
+              "{join,leave} x {a,b} with gaps 0.2 s / 1.0 s (inside / outside the delay; includes Leave then Join of the same "
+              "member within the delay) + three 3-member schedules; Range/RoundRobin/Sticky; 1 and 4 partitions; checked 0.01 s "
+              "after every rebalance instant and at quiescence; then every appended record is polled by exactly one member in offset order",
+     "fn": lambda seed, tier: run_native_script("triage/c19_group_membership.py")},
 ]
 
 
